@@ -30,6 +30,8 @@ class Stmt:
         k = self.kind
         if k in ("add", "gate"):
             return self.args[:2]
+        if k == "gate3":
+            return self.args[:3]
         if k in ("acc", "pass", "sink", "probe", "errts", "errtsv"):
             return self.args[:1]
         if k == "addk":
@@ -210,6 +212,14 @@ def elaborate(p):
             elif k == "gate":
                 f = s.args[2]
                 nodes.append(FNode(lab, k, [ref(s.args[0], f[0] == "U"), ref(s.args[1], f[1] == "U")], {}, region))
+                env[key] = (lab, "main")
+            elif k == "gate3":       # three inputs; flags = 3 validity chars + 3 activity chars (P = passive by SIGNATURE)
+                f = s.args[3]
+                ins = []
+                for i in range(3):
+                    r = ref(s.args[i], f[i] == "U")
+                    ins.append((r[0], r[1] or f[3 + i] == "P", r[2], r[3], r[4]))
+                nodes.append(FNode(lab, "gate", ins, {}, region))
                 env[key] = (lab, "main")
             elif k == "nscript":     # native script node: two inputs, both required valid
                 nodes.append(FNode(lab, "script", [ref(s.args[1]), ref(s.args[2])], {"id": int(s.args[0]), "sos": False}, region))
@@ -579,8 +589,8 @@ class Den:
                 logs.append("E %s %d a=%s" % (n.label, t, self.desc(a, t)))
                 write(n.label, self.ival(a))
             elif k == "gate":
-                logs.append("E %s %d a=%s b=%s" % (n.label, t, self.desc(a, t), self.desc(b, t)))
-                write(n.label, (self.ival(a) if self.ivalid(a) else 0) + (self.ival(b) if self.ivalid(b) else 0))
+                logs.append("E %s %d" % (n.label, t) + "".join(" %s=%s" % (nm, self.desc(r, t)) for nm, r in zip("abcd", n.ins)))
+                write(n.label, sum(self.ival(r) if self.ivalid(r) else 0 for r in n.ins))
             elif k == "script":
                 sc = self.p.scripts.get(n.params["id"], [])
                 before = self.qstr(st, t)
@@ -1071,6 +1081,39 @@ def gen_try_indep(rng):
         body.append(Stmt(8, "gate", [6, "~3", "VV"]))
     else:
         body.append(Stmt(8, "gate", [6, rng.choice(["3", "~3"]), "VU"]))
+    p.root = kahn_order(body)
+    return p
+
+
+def gen_sigpassive(rng):
+    """three-input nodes whose SIGNATURE declares one input passive, with and without wiring-time passive(...) markers on
+    the OTHER inputs (the two activity mechanisms on one node): user code must run exactly when one of the inputs that are
+    active under BOTH (signature-active and not marked) ticks - a tick of the signature-passive input alone never runs it,
+    also after a marker took another input out"""
+    p = Prog()
+    p.end = p.start + rng.choice([14, 20])
+    for k in (901, 902, 903):
+        p.ticks[k] = gen_ticks(rng, p.start, rng.randint(2, 8), 14)
+    if rng.random() < 0.6:       # all valid from the first cycle: what decides is the activity alone
+        for k in (901, 902, 903):
+            if p.ticks[k][0][0] != p.start:
+                p.ticks[k].insert(0, (p.start, rng.randint(1, 9)))
+    body = [Stmt(1, "src", [901]), Stmt(2, "src", [902]), Stmt(3, "src", [903])]
+    lbl = 4
+    for _ in range(rng.randint(1, 2)):
+        act = rng.choice(["PAA", "APA", "AAP", "APA", "AAA"])
+        free = [i for i in range(3) if act[i] == "A"]
+        marked = set()
+        r = rng.random()
+        if r < 0.6 and len(free) >= 2:
+            marked.add(rng.choice(free))                      # a marker on ANOTHER input than the signature-passive one
+        elif r < 0.7 and act != "AAA":
+            marked.add(act.index("P"))                        # a marker on the very input the signature declares passive
+        srcs = [1, 2, 3]
+        rng.shuffle(srcs)
+        args = [("~" if i in marked else "") + str(srcs[i]) for i in range(3)]
+        body.append(Stmt(lbl, "gate3", args + [rng.choice(["VVV", "VVV", "UUU", "VUV"]) + act])); g = lbl; lbl += 1
+        body.append(Stmt(lbl, "sink", [g])); lbl += 1
     p.root = kahn_order(body)
     return p
 
